@@ -89,5 +89,13 @@ theorem locatePos_some {i : Index} {t : Nat} (h : t < uncompressedSize i) : ∃ 
 theorem locatePos_none {i : Index} {t : Nat} (h : uncompressedSize i ≤ t) : locatePos i t = none := by
   unfold locatePos; rw [if_pos h]
 
+/-- the positions a persistent specification iterator returns when `next(mode)` is called until it fails -/
+def iterSeq (i : Index) (mode : Nat) : Nat → Option (Nat × Option Nat) → List (Nat × Option Nat)
+  | 0, _ => []
+  | n + 1, p =>
+    match iterNextPos i mode (iterFuel i) p with
+    | none => []
+    | some q => q :: iterSeq i mode n (some q)
+
 end Spec
 end XzVerif.Index
